@@ -24,3 +24,6 @@ func (c *SCIONClient) VerifMeasureSCION(ctx context.Context, localAddr, remoteAd
 func (c *IPClient) VerifMeasureIP(ctx context.Context, localAddr, remoteAddr *net.UDPAddr) (time.Time, time.Duration, error) {
 	return c.measureClockOffsetIP(ctx, ipMetrics.Load(), localAddr, remoteAddr)
 }
+
+// VerifSCIONPrevState is set by zz_verif_opt_prevstate.go when the tree has the fields.
+var VerifSCIONPrevState func(c *SCIONClient) (reference, path string, interleaved bool)
